@@ -95,6 +95,7 @@ func runC19(c *an.Ctx) {
 			c.Check(okHash, "same-subject|Transaction.Deserialization|hash-input", "the transaction hash is sha256(sha256(bytes[pstart:pos])) of the consumed source bytes", c.P.Rel(deser.Pos()), "hash input is not the re-read range pos-pstart")
 			// Raw
 			okRaw := false
+			var rawStores []ssa.Instruction
 			for _, w := range an.DirectFieldWrites(deser) {
 				if w.Kind != "store" || w.Field.Name() != "Raw" {
 					continue
@@ -103,9 +104,26 @@ func runC19(c *an.Ctx) {
 					if nb, isC := e.Tuple.(*ssa.Call); isC && an.CalleeObj(&nb.Call) == nextBytes {
 						if sub, isB := nb.Call.Args[1].(*ssa.BinOp); isB && sub.Op == token.SUB && sub.X == pend.Value() && sub.Y == pstart.Value() && an.RereadOK(nb) {
 							okRaw = true
+							rawStores = append(rawStores, w.In)
 						}
 					}
 				}
+			}
+			// ... on every path: once the end position is taken, no success return is reachable without that assignment
+			// (a Raw set by the caller beforehand must not survive: it may contain bytes the decoder never consumed)
+			if okRaw {
+				cut := map[ssa.Instruction]bool{}
+				for _, s := range rawStores {
+					cut[s] = true
+				}
+				r := (&an.Query{Fn: deser, Start: pend, Cut: cut}).Run()
+				always := true
+				for _, ret := range an.SuccessReturns(deser) {
+					if r.Reaches(ret) {
+						always = false
+					}
+				}
+				c.Check(always, "sequence|Transaction.Deserialization|Raw-assigned-on-every-success-path", "every successful Ontology-format decode assigns tx.Raw from the consumed range (a pre-set Raw never survives)", c.P.Rel(deser.Pos()), "a success return is reachable after the end position was taken without assigning tx.Raw")
 			}
 			c.Check(okRaw, "same-subject|Transaction.Deserialization|Raw-is-consumed-bytes", "tx.Raw is exactly the consumed source bytes [pstart, pend)", c.P.Rel(deser.Pos()), "Raw is not assigned from the re-read range pend-pstart")
 		}
